@@ -135,6 +135,12 @@ fn run_end(c: &EndCase) -> R {
                 zipora::io::endian::simd::convert_u16_slice_simd(&mut s, from_little);
                 zipora::io::endian::simd::convert_u16_slice_simd(&mut s, from_little);
                 ensure!(s == orig, "value", "convert_u16_slice_simd/roundtrip", "applying the conversion twice is not the identity (n={})", c.n);
+                // (coverage audit) whichever direction converts on this host: every element is converted the same way
+                // (all unchanged or all byte-swapped), in the 8-element SSE2 chunks and in the scalar remainder alike
+                let mut once = orig.clone();
+                zipora::io::endian::simd::convert_u16_slice_simd(&mut once, from_little);
+                let swapped: Vec<u16> = orig.iter().map(|v| v.swap_bytes()).collect();
+                ensure!(once == orig || once == swapped, "value", "convert_u16_slice_simd/uniform", "n={}: {:x?} -> {:x?} is neither the identity nor the byte swap of every element", c.n, orig, once);
             }
             int_endian!(u16, c)
         }
@@ -146,6 +152,10 @@ fn run_end(c: &EndCase) -> R {
                 zipora::io::endian::simd::convert_u32_slice_simd(&mut s, from_little);
                 zipora::io::endian::simd::convert_u32_slice_simd(&mut s, from_little);
                 ensure!(s == orig, "value", "convert_u32_slice_simd/roundtrip", "applying the conversion twice is not the identity (n={})", c.n);
+                let mut once = orig.clone();
+                zipora::io::endian::simd::convert_u32_slice_simd(&mut once, from_little);
+                let swapped: Vec<u32> = orig.iter().map(|v| v.swap_bytes()).collect();
+                ensure!(once == orig || once == swapped, "value", "convert_u32_slice_simd/uniform", "n={}: {:x?} -> {:x?} is neither the identity nor the byte swap of every element", c.n, orig, once);
             }
             int_endian!(u32, c)
         }
@@ -233,7 +243,12 @@ fn check_complex<T: ComplexSerialize + PartialEq + Debug + Clone>(ty: &str, v: &
         let b = must(s.serialize_to_bytes(v), "encode_err", ty)?;
         let d: T = must(s.deserialize_from_bytes(&b), "decode_err", &format!("{ty}/serializer[{cn}]"))?;
         ensure!(&d == v, "value", format!("{ty}/serializer[{cn}]"), "serializer round trip: {:?}", d);
-        for batch in [vec![], vec![v.clone()], vec![v.clone(), w.clone()], vec![w.clone(), v.clone(), w.clone()]] {
+        let mut batches = vec![vec![], vec![v.clone()], vec![v.clone(), w.clone()], vec![w.clone(), v.clone(), w.clone()]];
+        if bytes.len() <= 16 {
+            // (coverage audit) more values than the 1024 deserialize_batch reserves up front (small values only)
+            batches.push((0..1025).map(|i| if i % 2 == 0 { v.clone() } else { w.clone() }).collect());
+        }
+        for batch in batches {
             let b = must(s.serialize_batch(&batch), "encode_err", ty)?;
             let d: Vec<T> = must(s.deserialize_batch(&b), "decode_err", &format!("{ty}/batch[{cn}]"))?;
             ensure!(d == batch, "value", format!("{ty}/batch[{cn}]"), "batch of {} round trip: {:?}", batch.len(), d);
@@ -290,20 +305,23 @@ complex_types! {
         [(0u32, String::new())].into_iter().collect(),
         [(1u32, "a".to_string()), (u32::MAX, text(128, 1))].into_iter().collect(),
         (0u32..40).map(|i| (i * 0x0101_0101, text(i as usize, 0))).collect(),
+        // (coverage audit, appended) more entries than the 1024 the deserialiser reserves up front
+        (0u32..1025).map(|i| (i.wrapping_mul(0x9E37_79B9), text((i % 3) as usize, 0))).collect(),
     ],
-    "HashSet<u64>" => HashSet<u64> : vec![HashSet::new(), [0u64].into_iter().collect(), grid_u64().into_iter().collect(), [u64::MAX, 1 << 63].into_iter().collect()],
+    "HashSet<u64>" => HashSet<u64> : vec![HashSet::new(), [0u64].into_iter().collect(), grid_u64().into_iter().collect(), [u64::MAX, 1 << 63].into_iter().collect(), (0u64..1025).map(|i| i * i).collect(), (0u64..1024).collect()],
     "BTreeMap<String,u32>" => BTreeMap<String, u32> : vec![
         BTreeMap::new(),
         [(String::new(), 0u32)].into_iter().collect(),
         strs().into_iter().zip(u32s().into_iter().cycle()).collect(),
+        (0u32..1025).map(|i| (format!("k{i:04}"), i)).collect(),
     ],
-    "BTreeSet<i32>" => BTreeSet<i32> : vec![BTreeSet::new(), [0].into_iter().collect(), [i32::MIN, -1, 0, 1, i32::MAX].into_iter().collect()],
+    "BTreeSet<i32>" => BTreeSet<i32> : vec![BTreeSet::new(), [0].into_iter().collect(), [i32::MIN, -1, 0, 1, i32::MAX].into_iter().collect(), (-512i32..513).collect(), (0i32..1024).collect()],
     "BTreeMap<u32,Vec<Option<String>>>" => BTreeMap<u32, Vec<Option<String>>> : vec![
         BTreeMap::new(),
         [(7u32, vec![])].into_iter().collect(),
         [(0u32, vec![None, Some(String::new()), Some(text(128, 1))]), (u32::MAX, vec![Some("z".to_string())])].into_iter().collect(),
     ],
-    "Option<Vec<u64>>" => Option<Vec<u64>> : vec![None, Some(vec![]), Some(grid_u64()), Some(vec![u64::MAX; 3])],
+    "Option<Vec<u64>>" => Option<Vec<u64>> : vec![None, Some(vec![]), Some(grid_u64()), Some(vec![u64::MAX; 3]), Some((0u64..1025).collect()), Some((0u64..1023).collect()), Some((0u64..1024).collect())],
 }
 
 fn gen_complex(_t: Tier, f: &mut dyn FnMut(TyCase) -> bool) {
@@ -327,7 +345,7 @@ pub struct PtrCase {
     cfg: u8,
 }
 
-const PTRS: &[&str] = &["Box", "Option<Box>/Some", "Option<Box>/None", "Rc", "Arc", "Rc/shared-twice", "Arc/shared-twice", "Weak<Rc>/live", "Weak<Rc>/dangling", "Weak<Arc>/live", "Weak<Arc>/dangling", "Vec<Rc>", "Box<Box>", "Rc<Arc>"];
+const PTRS: &[&str] = &["Box", "Option<Box>/Some", "Option<Box>/None", "Rc", "Arc", "Rc/shared-twice", "Arc/shared-twice", "Weak<Rc>/live", "Weak<Rc>/dangling", "Weak<Arc>/live", "Weak<Arc>/dangling", "Vec<Rc>", "Box<Box>", "Rc<Arc>", "Rc/temporaries-one-context", "Arc/temporaries-one-context", "Rc/context-cleared-and-reused", "Arc/context-cleared-and-reused"];
 
 fn ptr_cfg(i: u8) -> SmartPtrConfig {
     match i {
@@ -441,6 +459,101 @@ fn run_ptr_t<T: SerializableType + PartialEq + Debug + Clone + Send + Sync + 'st
                 }
                 bytes.len()
             }
+        }
+        "Rc/temporaries-one-context" | "Arc/temporaries-one-context" => {
+            // (coverage audit) a stream of pointers written with one context where each pointer is a temporary that is
+            // dropped before the next one is created (e.g. `Rc::new(item).serialize_with_context(..)` in a loop): the
+            // allocator hands the same address to the next object
+            let mut o = VecDataOutput::new();
+            let mut ctx = if c.cfg == 1 { SerializationContext::without_cycle_detection() } else { SerializationContext::new() };
+            let mut cuts = Vec::new();
+            let mut same_address = false;
+            let mut last_addr = 0usize;
+            for x in [&v, &w, &v] {
+                if label.starts_with("Rc") {
+                    let p = Rc::new(x.clone());
+                    same_address |= Rc::as_ptr(&p) as usize == last_addr;
+                    last_addr = Rc::as_ptr(&p) as usize;
+                    must(p.serialize_with_context(&mut o, &mut ctx), "encode_err", label)?;
+                } else {
+                    let p = Arc::new(x.clone());
+                    same_address |= Arc::as_ptr(&p) as usize == last_addr;
+                    last_addr = Arc::as_ptr(&p) as usize;
+                    must(p.serialize_with_context(&mut o, &mut ctx), "encode_err", label)?;
+                }
+                cuts.push(o.len());
+            }
+            let bytes = o.into_vec();
+            let mut i = SliceDataInput::new(&bytes);
+            let class = format!("{label}/{}", if same_address && c.cfg != 1 { "address_reused" } else { "distinct_addresses_or_no_tracking" });
+            if label.starts_with("Rc") {
+                let mut dctx = DeserializationContext::new();
+                for (k, want) in [&v, &w, &v].into_iter().enumerate() {
+                    let d = Rc::<T>::deserialize_with_context(&mut i, &mut dctx).map_err(|e| bad("decode_err", class.clone(), format!("pointer {k}: {e}")))?;
+                    ensure!(&*d == want, "value", class.clone(), "pointer {k} (a new object, written after the previous one was dropped) decoded to {:?}, the value written is {:?}", d, want);
+                    ensure!(i.pos() == cuts[k], "consumed", class.clone(), "after pointer {k} position {} but the encoder was at {}", i.pos(), cuts[k]);
+                }
+            } else {
+                let mut dctx = DeserializationContext::new();
+                for (k, want) in [&v, &w, &v].into_iter().enumerate() {
+                    let d = Arc::<T>::deserialize_with_context(&mut i, &mut dctx).map_err(|e| bad("decode_err", class.clone(), format!("pointer {k}: {e}")))?;
+                    ensure!(&*d == want, "value", class.clone(), "pointer {k} (a new object, written after the previous one was dropped) decoded to {:?}, the value written is {:?}", d, want);
+                    ensure!(i.pos() == cuts[k], "consumed", class.clone(), "after pointer {k} position {} but the encoder was at {}", i.pos(), cuts[k]);
+                }
+            }
+            bytes.len()
+        }
+        "Rc/context-cleared-and-reused" | "Arc/context-cleared-and-reused" => {
+            // (coverage audit) one SerializationContext / DeserializationContext pair used for two independent streams with
+            // clear() in between: the second stream must be self-contained (no reference into the first one)
+            let mut ctx = if c.cfg == 1 { SerializationContext::without_cycle_detection() } else { SerializationContext::new() };
+            let mut streams: Vec<(Vec<u8>, Vec<usize>)> = Vec::new();
+            if label.starts_with("Rc") {
+                let (a, b) = (Rc::new(v.clone()), Rc::new(w.clone()));
+                for order in [[&a, &b, &a], [&b, &a, &a]] {
+                    let mut o = VecDataOutput::new();
+                    let mut cuts = Vec::new();
+                    for p in order {
+                        must(p.serialize_with_context(&mut o, &mut ctx), "encode_err", label)?;
+                        cuts.push(o.len());
+                    }
+                    streams.push((o.into_vec(), cuts));
+                    ctx.clear();
+                }
+                let mut dctx = DeserializationContext::new();
+                for (si, ((bytes, cuts), wants)) in streams.iter().zip([[&v, &w, &v], [&w, &v, &v]]).enumerate() {
+                    let mut i = SliceDataInput::new(bytes);
+                    for (k, want) in wants.into_iter().enumerate() {
+                        let d = Rc::<T>::deserialize_with_context(&mut i, &mut dctx).map_err(|e| bad("decode_err", label.to_string(), format!("stream {si} pointer {k}: {e}")))?;
+                        ensure!(&*d == want, "value", label.to_string(), "stream {si} pointer {k} decoded to {:?}, want {:?}", d, want);
+                        ensure!(i.pos() == cuts[k], "consumed", label.to_string(), "stream {si}: after pointer {k} position {} but the encoder was at {}", i.pos(), cuts[k]);
+                    }
+                    dctx.clear();
+                }
+            } else {
+                let (a, b) = (Arc::new(v.clone()), Arc::new(w.clone()));
+                for order in [[&a, &b, &a], [&b, &a, &a]] {
+                    let mut o = VecDataOutput::new();
+                    let mut cuts = Vec::new();
+                    for p in order {
+                        must(p.serialize_with_context(&mut o, &mut ctx), "encode_err", label)?;
+                        cuts.push(o.len());
+                    }
+                    streams.push((o.into_vec(), cuts));
+                    ctx.clear();
+                }
+                let mut dctx = DeserializationContext::new();
+                for (si, ((bytes, cuts), wants)) in streams.iter().zip([[&v, &w, &v], [&w, &v, &v]]).enumerate() {
+                    let mut i = SliceDataInput::new(bytes);
+                    for (k, want) in wants.into_iter().enumerate() {
+                        let d = Arc::<T>::deserialize_with_context(&mut i, &mut dctx).map_err(|e| bad("decode_err", label.to_string(), format!("stream {si} pointer {k}: {e}")))?;
+                        ensure!(&*d == want, "value", label.to_string(), "stream {si} pointer {k} decoded to {:?}, want {:?}", d, want);
+                        ensure!(i.pos() == cuts[k], "consumed", label.to_string(), "stream {si}: after pointer {k} position {} but the encoder was at {}", i.pos(), cuts[k]);
+                    }
+                    dctx.clear();
+                }
+            }
+            streams.iter().map(|s| s.0.len()).sum()
         }
         "Vec<Rc>" | "Box<Box>" | "Rc<Arc>" => {
             // SerializableType bridges, nested
@@ -692,13 +805,13 @@ pub fn register(reg: &mut Registry) {
     ));
     reg.add(fam(
         "ComplexSerialize",
-        "20 types (unit, tuples of arity 1,2,3,12, arrays [T;0],[u16;3],[String;2], Option, nested Option, Result, HashMap, HashSet, BTreeMap, BTreeSet, nested map of vec of option) x their value lists built from the integer grid and strings of byte length {0,1,127,128,16383,16384} (+NUL, 2-byte char); data-only, concatenation of two values, with metadata, nested, ComplexTypeSerializer x 5 presets incl. batches of 0..3",
+        "20 types (unit, tuples of arity 1,2,3,12, arrays [T;0],[u16;3],[String;2], Option, nested Option, Result, HashMap, HashSet, BTreeMap, BTreeSet, nested map of vec of option) x their value lists built from the integer grid and strings of byte length {0,1,127,128,16383,16384} (+NUL, 2-byte char); data-only, concatenation of two values, with metadata, nested, ComplexTypeSerializer x 5 presets incl. batches of 0..3; coverage audit: collections of 1023/1024/1025 elements and batches of 1025 values (the deserialisers reserve at most 1024 up front)",
         gen_complex,
         run_complex,
     ));
     reg.add(fam(
         "SmartPtr",
-        "14 pointer shapes (Box, Option<Box> Some/None, Rc, Arc, same Rc/Arc serialised repeatedly with one context, Weak<Rc>/Weak<Arc> live and dangling, Vec<Rc>, Box<Box>, Rc<Arc>) x pointee types {u32 (7 values), String (8: byte length {0,1,127,128,16383,16384}, NUL, 2-byte), i64 (9), Vec<u8> (4)} x 4 SmartPtrConfig presets; decoded alone and followed by another record",
+        "18 pointer shapes (Box, Option<Box> Some/None, Rc, Arc, same Rc/Arc serialised repeatedly with one context, three temporary Rc/Arc serialised one after the other with one context, one context pair cleared and reused for a second stream (coverage audit), Weak<Rc>/Weak<Arc> live and dangling, Vec<Rc>, Box<Box>, Rc<Arc>) x pointee types {u32 (7 values), String (8: byte length {0,1,127,128,16383,16384}, NUL, 2-byte), i64 (9), Vec<u8> (4)} x 4 SmartPtrConfig presets; decoded alone and followed by another record",
         gen_ptr,
         run_ptr,
     ));
